@@ -157,6 +157,7 @@ Print Assumptions C08_pareto_exact_unbounded.
 (* ... and for a bounded front as long as no more distinct individuals were shown than it can
    hold (the observable "below capacity" condition the oracle uses) *)
 Theorem C08_pareto_exact_below_capacity : forall sk cap pops,
+  sim_reflexive sk = true ->
   shown_multi (concat pops) -> uid_injective (concat pops) ->
   length (nodup Nat.eq_dec (map uid (concat pops))) <= cap ->
   let seen := concat pops in
@@ -166,6 +167,49 @@ Theorem C08_pareto_exact_below_capacity : forall sk cap pops,
              exists m, In m (items a) /\ f_eq (fitness m) (fitness s) = true).
 Proof. exact pareto_exact_few. Qed.
 Print Assumptions C08_pareto_exact_below_capacity.
+
+(* ------------------------------------------------------------------------------------ *)
+(* ... for ANY user-supplied similarity function `sim` (ParetoFront(similar = sim),        *)
+(* GenerationKeeper(similarity_criteria = sim)): the twin test of the code is              *)
+(* `ind.fitness == member.fitness and sim(ind, member)`, so a similarity function can only  *)
+(* merge individuals with the SAME fitness vector, and nothing is required of `sim`.       *)
+(* The theorems above are the instances sim = sim_of sk.                                   *)
+(* ------------------------------------------------------------------------------------ *)
+Theorem C08_pareto_inv_any_similarity : forall (sim : indiv -> indiv -> bool) cap pops,
+  shown_multi (concat pops) ->
+  let a := pf_run fitness f_worse f_dom f_eq sim cap empty_arch pops in
+  keys a = rev (map fitness (items a)) /\
+  (forall x y, In x (items a) -> In y (items a) -> f_dom (fitness x) (fitness y) = false) /\
+  incl (items a) (concat pops) /\
+  (0 < cap -> length (items a) <= cap) /\
+  StronglySorted (fun x y => f_better x y = false) (keys a).
+Proof. exact pareto_inv_sim. Qed.
+Print Assumptions C08_pareto_inv_any_similarity.
+
+Theorem C08_pareto_exact_any_similarity : forall (sim : indiv -> indiv -> bool) cap pops,
+  shown_multi (concat pops) ->
+  (pf_no_evict fitness f_worse f_dom f_eq sim cap empty_arch (concat pops) = true \/
+   cap = 0 \/ length (concat pops) <= cap) ->
+  let seen := concat pops in
+  let a := pf_run fitness f_worse f_dom f_eq sim cap empty_arch pops in
+  (forall m, In m (items a) -> In m seen /\ forall s, In s seen -> f_dom (fitness s) (fitness m) = false) /\
+  (forall s, In s seen -> (forall s', In s' seen -> f_dom (fitness s') (fitness s) = false) ->
+             exists m, In m (items a) /\ f_eq (fitness m) (fitness s) = true).
+Proof.
+  intros sim cap pops H [Ne|[->|Few]].
+  - apply pareto_exact_sim; assumption.
+  - apply pareto_exact_unbounded_sim, H.
+  - apply pareto_exact_count_sim; assumption.
+Qed.
+Print Assumptions C08_pareto_exact_any_similarity.
+
+Theorem C08_pareto_best_never_worse_any_similarity : forall (sim : indiv -> indiv -> bool) cap pops pop h rest,
+  shown_multi (concat (pops ++ [pop])) ->
+  items (pf_run fitness f_worse f_dom f_eq sim cap empty_arch pops) = h :: rest ->
+  exists h' rest', items (pf_run fitness f_worse f_dom f_eq sim cap empty_arch (pops ++ [pop])) = h' :: rest' /\
+                   f_better (fitness h) (fitness h') = false.
+Proof. exact pareto_best_never_worse_sim. Qed.
+Print Assumptions C08_pareto_best_never_worse_any_similarity.
 
 (* the (lexicographically) best member of the front never gets worse, whatever the capacity *)
 Theorem C08_pareto_best_never_worse : forall sk cap pops pop h rest,
@@ -380,3 +424,21 @@ Example hof_history_with_invalid :
   map uid (items (hof_runs 4 empty_arch (firstn 2 ex_pops_invalid))) = [2; 1; 7; 8] /\
   map uid (items (hof_runs 3 empty_arch ex_pops_invalid)) = [4; 2; 1].
 Proof. vm_compute. repeat split. Qed.
+
+(* the same structure (graph class 0) seen under different, mutually non-dominated vectors and a
+   genotype-only similarity function (the shape of seeded change C08-J): all vectors are kept *)
+Definition ex_noisy := [[mk2 1 2 9 1; mk2 2 3 4 0]; [mk2 3 3 4 0]; [mk2 4 2 5 0]; [mk2 5 1 7 0; mk2 6 4 1 1]].
+
+Example front_with_genotype_similarity :
+  shown_multi (concat ex_noisy) /\
+  map uid (items (pf_runs SimGraph 0 empty_arch (firstn 2 ex_noisy))) = [1; 2] /\
+  map uid (items (pf_runs SimGraph 0 empty_arch (firstn 3 ex_noisy))) = [4; 2] /\
+  map uid (items (pf_runs SimGraph 0 empty_arch ex_noisy)) = [5; 4; 2; 6] /\
+  map uid (items (pf_runs SimNever 0 empty_arch (firstn 2 ex_noisy))) = [1; 3; 2].
+Proof.
+  split.
+  - split.
+    + apply sepu_b_correct. vm_compute. reflexivity.
+    + intros f Hf. simpl in Hf. repeat (destruct Hf as [<-|Hf]; [eexists; eexists; reflexivity|]). destruct Hf.
+  - vm_compute. repeat split.
+Qed.
